@@ -1,8 +1,9 @@
 package main
 
 import (
-	"fmt"
 	"encoding/json"
+	"fmt"
+	"math"
 	"math/rand"
 	"os"
 	"strings"
@@ -16,18 +17,21 @@ import (
 // the Coq model needs, the observed answer, and the paired runs the relational properties compare.
 
 type engNLP struct {
-	Actions  [][]int  `json:"actions"`
-	Targets  [][]int  `json:"targets"`
-	Keywords [][]int  `json:"keywords"`
-	Enhanced [][]int  `json:"enhanced"`
-	Intent   string   `json:"intent"`
-	IntentB  []string `json:"intent_boost"`
-	Cooccur  []bool   `json:"cooccur"`
-	Cascade  []string `json:"cascade"`
-	HasTFIDF bool     `json:"has_tfidf"`
-	TFIDF    []eRes   `json:"tfidf"`
-	Sig      [][]int  `json:"sig"`  // the whole analysis flattened: keywords | enhanced | actions | targets | intent
-	Sig2     [][]int  `json:"sig2"` // the same from a repeated analysis (the first of 8 repetitions that differs, else the last)
+	Actions  [][]int   `json:"actions"`
+	Targets  [][]int   `json:"targets"`
+	Keywords [][]int   `json:"keywords"`
+	Enhanced [][]int   `json:"enhanced"`
+	Intent   string    `json:"intent"`
+	IntentB  []string  `json:"intent_boost"`
+	Cooccur  []bool    `json:"cooccur"`
+	Cascade  []string  `json:"cascade"`
+	HasTFIDF bool      `json:"has_tfidf"`
+	TFIDF    []eRes    `json:"tfidf"`
+	DocToks  [][][]int `json:"doc_toks"` // TF-IDF tokenizer output for each command's text (command, description, keywords)
+	QToks    [][]int   `json:"q_toks"`   // ... and for the query
+	LogT     []string  `json:"logt"`     // logt[dc] = math.Log(N / dc), dc = 0..N
+	Sig      [][]int   `json:"sig"`      // the whole analysis flattened: keywords | enhanced | actions | targets | intent
+	Sig2     [][]int   `json:"sig2"`     // the same from a repeated analysis (the first of 8 repetitions that differs, else the last)
 }
 
 type engCase struct {
@@ -132,6 +136,15 @@ func engOracles(c *engCase, db *database.Database, q string) {
 		c.NLP.IntentB = append(c.NLP.IntentB, hexf(db.VerifIntentBoost(i, pq)))
 		c.NLP.Cooccur = append(c.NLP.Cooccur, db.VerifCooccur(i, pq))
 		c.NLP.Cascade = append(c.NLP.Cascade, hexf(db.VerifCascadeBoost(i, pq)))
+	}
+	for i := range db.Commands {
+		cm := &db.Commands[i]
+		text := strings.Join([]string{cm.Command, cm.Description, strings.Join(cm.Keywords, " ")}, " ")
+		c.NLP.DocToks = append(c.NLP.DocToks, intsList(nlp.VerifTFIDFTokenize(text)))
+	}
+	c.NLP.QToks = intsList(nlp.VerifTFIDFTokenize(q))
+	for dc := 0; dc <= n; dc++ {
+		c.NLP.LogT = append(c.NLP.LogT, hexf(math.Log(float64(n)/float64(dc))))
 	}
 	res, ok := db.VerifTFIDFSearch(q, n+1)
 	c.NLP.HasTFIDF = ok
